@@ -60,6 +60,7 @@ type Finding struct{ Sig, Msg string }
 
 type Stats struct {
 	Values, InArray, GapsInArrays, BelowNested, BelowFormat, TobitsCompared, Unmatched, KnownTLS, Interesting int64
+	StructFieldWithIndex, RootWithIndex                                                                      int64
 }
 
 type rec struct {
@@ -366,10 +367,13 @@ func JudgeTree(t *c05.Tree, st *Stats) []Finding {
 					add(prefix+"name:struct-field", "value at %s is held by its parent under %q but reports _name %v", ps, name, r.Name)
 				}
 				if r.Index != nil {
+					// a struct field that also reports an index: the property only asks that the
+					// parent holds it under its name; Index == -1 for struct children is C03's
+					// invariant (recorded there for the tls late fields). Counted, not judged.
 					if isKnownTLS(r.V) {
 						st.KnownTLS++
 					} else {
-						add(prefix+"index:struct-field-has-index", "value at %s is a struct field but reports _index %v", ps, r.Index)
+						st.StructFieldWithIndex++
 					}
 				}
 			}
@@ -377,7 +381,9 @@ func JudgeTree(t *c05.Tree, st *Stats) []Finding {
 				add(prefix+"parent:does-not-contain-value", "value at %s: parent[_index or _name] (_index %v, _name %v) is %s", ps, r.Index, r.Name, dvPath(r.Lookup))
 			}
 		} else if r.Index != nil {
-			add(prefix+"index:root-has-index", "the root value reports _index %v", r.Index)
+			// a root that is a scalar (xml, json, ... formats) is never post-processed and
+			// reports _index 0; it has no parent, so the property demands nothing. Counted.
+			st.RootWithIndex++
 		}
 	}
 	if interesting {
